@@ -51,3 +51,14 @@ def slot(d, k):
 def snapshot_lists(d):
     """a copy of a dictionary of lists, the lists copied too"""
     return {k: list(v) for k, v in d.items()}
+
+
+def all_keys(*dicts):
+    """the keys of the dictionaries, each once, in order of first occurrence (in proofs, for a dictionary with
+    symbolic key presence: its universe of possible keys)"""
+    out = []
+    for d in dicts:
+        for k in d.keys():
+            if k not in out:
+                out.append(k)
+    return out
